@@ -84,7 +84,7 @@ class Check:
         r["floors"][what] = {"count": count, "min": minimum}
         if count < minimum:
             self.violation(rule, "FLOOR %s" % what,
-                           "rule matched %d %s, expected at least %d (counted by hand on the pinned tree); "
+                           "rule matched %d %s, expected at least %d (a fraction of what was counted on the pinned tree, leaving room for refactoring); "
                            "a rule that matches nothing passes vacuously" % (count, what, minimum))
 
     def note(self, s):
